@@ -288,15 +288,29 @@ def kernel_closure(patterns):
     return sorted(sel) + gl_sel + ff_sel
 
 
-def property_theorems(pid):
-    """all theorems stated in Proofs/<pid>.lean (helper lemmas live elsewhere)"""
-    path = os.path.join(LEAN, 'Proofs', pid + '.lean')
+# theorems of Proofs/Glue.lean (combinations of results of different property files) counted as obligations of the property they complete
+GLUE = {'C09': r'^(toQuadsWithin_real|cubic_nearest_within_unconditional|pathSeg_nearest_within_unconditional)',
+        'C01': r'^windingInner_', 'C05': r'^(cubic_flatten_vertices_near_cubic|flatten_curveTo_vertices_near_cubic)'}
+
+
+def _theorems_in(path):
     if not os.path.exists(path):
         return []
     txt = open(path).read()
     txt = re.sub(r'/-.*?-/', '', txt, flags=re.S)
     txt = re.sub(r'--[^\n]*', '', txt)
     return re.findall(r'^\s*(?:protected |private )?theorem\s+([^\s:({\[]+)', txt, re.M)
+
+
+def glue_theorems(pid):
+    if pid not in GLUE:
+        return []
+    return [t for t in _theorems_in(os.path.join(LEAN, 'Proofs', 'Glue.lean')) if re.match(GLUE[pid], t)]
+
+
+def property_theorems(pid):
+    """all theorems stated in Proofs/<pid>.lean (helper lemmas live elsewhere) + the glue theorems that complete this property"""
+    return _theorems_in(os.path.join(LEAN, 'Proofs', pid + '.lean')) + glue_theorems(pid)
 
 
 FORBIDDEN = re.compile(r'\bsorry\b|\badmit\b|^\s*axiom\s|native_decide|bv_decide|implemented_by|\bunsafe\s|maxHeartbeats\s+0\b', re.M)
@@ -337,7 +351,7 @@ def audit_axioms(pid, theorems):
         return {}, ''
     path = os.path.join(LEAN, '.lake', f'audit_{pid}.lean')
     with open(path, 'w') as f:
-        f.write(f'import Proofs.{pid}\nopen Kurbo\n')
+        f.write(f'import Proofs.{pid}\n' + ('import Proofs.Glue\n' if glue_theorems(pid) else '') + 'open Kurbo\n')
         for t in theorems:
             f.write(f'#print axioms Kurbo.{t}\n' if not t.startswith('Kurbo.') else f'#print axioms {t}\n')
     rc, out = sh(['lake', 'env', 'lean', path], cwd=LEAN, timeout=1200)
